@@ -92,6 +92,15 @@ CHECKS = {
         note=COMMON_NOTE,
         technique="TLA+ flat-string semantics + TLC trace validation, exhaustive small scope of construction programs",
     ),
+    "C19": dict(
+        text="Guarded probes (feature verif) evaluate the documented precondition immediately before each of the 15 unsafe operations; the "
+             "harness records per call which sites were reached and which probes were false (a false probe is written to a side file first, "
+             "so it survives an abort). TLC requires no false probe on any record of the rope programs, the wild/multi-byte trees and the "
+             "concurrent schedules, and every site to be reached in every run. The lifetime-extended CachedSource borrow is covered by the "
+             "write-once monitor of C18.",
+        note=COMMON_NOTE + " TLA+ cannot see memory: what is decided is 'every executed unsafe operation met its stated precondition'; no sanitizer run is registered.",
+        technique="precondition probes at unsafe sites + TLC trace validation (per-site coverage enforced)",
+    ),
     "C12": dict(
         text="encode_mappings / decode_mappings are run on every mapping sequence of a small exhaustive domain, on big-value pairs per field, "
              "on grammar strings spelled by the specification (redundant continuation digits, empty segments, backward columns) and on all "
